@@ -36,12 +36,15 @@ ATOL = 1e-10
 def plan(tier, seed):
     n = 16
     per = 4000 if tier == "quick" else 40000
-    return [{"name": "s%02d" % i, "shard": i, "cases": per, "timeout": 3000} for i in range(n)]
+    specs = [{"name": "s%02d" % i, "shard": i, "cases": per, "timeout": 3000} for i in range(n)]
+    specs += [{"name": "stream%d" % i, "kind": "stream", "shard": 30 + i, "streams": 10 if tier == "quick" else 100, "timeout": 3000} for i in range(4)]
+    return specs
 
 
 def required(tier):
     return {"llk_vs_oracle": 1000, "structural_vs_oracle": 1000, "gap_cases": 100, "neg_inf_cases": 5,
-            "alleles_vs_oracle": 500, "pedigree_alleles_vs_oracle": 300, "cached_hits": 100}
+            "alleles_vs_oracle": 500, "pedigree_alleles_vs_oracle": 300, "cached_hits": 100,
+            "stream_lookups_checked": 8000, "stream_lookups_hit": 1500, "stream_lookups_allele_index_ge_64": 500, "stream_pedigree_lookups_checked": 2000}
 
 
 def close(a, b):
@@ -223,10 +226,32 @@ def kernels():
         d[-1] = np.nan
         return d
 
+    ped_kind = []
+
     def typed_dict_ped():
-        d = Dict.empty(key_type=types.UniTuple(types.int64, 2), value_type=types.float64)
-        d[(-1, -1)] = np.nan
-        return d
+        """A cache as the pedigree sampler creates it.  The key type is the sampler's business: the (sample, genotype index)
+        tuple key is tried first, then a plain integer key, whichever the compiled wrapper accepts."""
+        def make(kind):
+            if kind == "tuple":
+                d = Dict.empty(key_type=types.UniTuple(types.int64, 2), value_type=types.float64)
+                d[(-1, -1)] = np.nan
+            else:
+                d = Dict.empty(key_type=types.int64, value_type=types.float64)
+                d[-1] = np.nan
+            return d
+
+        if not ped_kind:
+            probe_reads = np.full((1, 1, 2), 0.5)
+            for kind in ("tuple", "int"):
+                try:
+                    PL.log_likelihood_alleles_cached(probe_reads, np.ones(1, dtype=np.int64), np.zeros((1, 1), dtype=np.int8), 0, np.zeros(2, dtype=np.int64), make(kind))
+                    ped_kind.append(kind)
+                    break
+                except Exception:  # noqa: BLE001  (typing error: not this key type)
+                    continue
+            if not ped_kind:
+                ped_kind.append("tuple")
+        return make(ped_kind[0])
 
     return {
         "log_likelihood": AL.log_likelihood,
@@ -263,7 +288,82 @@ def complete_case(rng, c):
     return c
 
 
+def run_stream(tier, seed, spec, col):
+    """ONE cache fed a long stream of genotypes over a LARGE set of candidate haplotypes (40-250, i.e. allele numbers far
+    beyond 32 / 64 / 127) at every ploidy 1-8: each value the calling-level and pedigree-level cached likelihoods serve -
+    miss, hit, single-allele neighbour, permuted order - must be the mixture likelihood of exactly that genotype."""
+    K = kernels()
+    for si in range(spec["streams"]):
+        rng = gen.rng_for(seed, ID, spec["shard"], si)
+        ploidy = int(1 + (si + spec["shard"]) % 8)
+        n_pos = 8
+        n_haps = int(rng.choice([40, 70, 130, 200, 250]))
+        codes = rng.permutation(256)[:n_haps]
+        haps = np.array([[(int(c_) >> j) & 1 for j in range(n_pos)] for c_ in codes], dtype=np.int8)
+        n_reads = int(rng.integers(2, 7))
+        truth = haps[rng.integers(0, n_haps, size=ploidy)]
+        reads = gen.gen_reads_from_haps(rng, truth, n_reads, np.full(n_pos, 2), n_nucl=2, gap_rate=0.2, err=0.02)
+        counts = rng.integers(1, 4, size=n_reads).astype(np.int64)
+        Mx = M.hap_read_matrix(reads, haps)
+        d = K["typed_dict"]()
+        cur = np.sort(rng.integers(0, n_haps, size=ploidy)).astype(np.int64)
+        seen = set()
+        case = {"kind": "stream", "seed": seed, "shard": spec["shard"], "stream": si, "ploidy": ploidy, "n_haplotypes": n_haps}
+        col.case("STREAM|%d|%d" % (spec["shard"], si), nontrivial=True)
+        bad = None
+        for k in range(250):
+            r = rng.random()
+            if r < 0.5:
+                g = cur.copy()
+                g[int(rng.integers(ploidy))] = int(rng.integers(n_haps))     # single-allele neighbour (what a Gibbs sweep looks up)
+            elif r < 0.8:
+                g = rng.integers(0, n_haps, size=ploidy).astype(np.int64)
+            else:
+                g = cur.copy()                                                 # repeat: a hit
+            if rng.random() < 0.3:
+                cur = np.sort(g)
+            key = tuple(sorted(int(a) for a in g))
+            col.count("stream_lookups_checked")
+            if key in seen:
+                col.count("stream_lookups_hit")
+            seen.add(key)
+            if max(key) >= 64:
+                col.count("stream_lookups_allele_index_ge_64")
+            want = M.log_likelihood_alleles_fast(Mx, key, counts)
+            got = float(K["llk_alleles_cached"](reads, counts, haps, np.ascontiguousarray(g[rng.permutation(ploidy)]), d))
+            if not close(got, want):
+                bad = "lookup %d: genotype %s served %.10g, its mixture likelihood is %.10g (ploidy %d, %d haplotypes, %d entries cached)" % (k, list(key), got, want, ploidy, n_haps, len(d) - 1)
+                break
+        if bad:
+            col.violation("cache-returns-wrong-likelihood", "calling.log_likelihood_alleles_cached, one cache over a stream: " + bad, replay=case)
+        # pedigree flavour: several samples of different ploidy share one cache
+        dp = K["typed_dict_ped"]()
+        ploidies = [int(x) for x in rng.choice([2, 3, 4, 6], size=3)]
+        sreads = [gen.gen_reads_from_haps(rng, haps[rng.integers(0, n_haps, size=pl)], int(rng.integers(1, 5)), np.full(n_pos, 2), n_nucl=2, gap_rate=0.2, err=0.02) for pl in ploidies]
+        scounts = [rng.integers(1, 3, size=len(x)).astype(np.int64) for x in sreads]
+        sM = [M.hap_read_matrix(x, haps) for x in sreads]
+        bad = None
+        pool = [np.sort(rng.integers(0, n_haps, size=pl)).astype(np.int64) for pl in ploidies for _ in range(6)]
+        for k in range(120):
+            smp = int(rng.integers(3))
+            cand = [g for g in pool if len(g) == ploidies[smp]]
+            g = cand[int(rng.integers(len(cand)))].copy()
+            if rng.random() < 0.5:
+                g[int(rng.integers(len(g)))] = int(rng.integers(n_haps))
+                g = np.sort(g)
+            col.count("stream_pedigree_lookups_checked")
+            want = M.log_likelihood_alleles_fast(sM[smp], tuple(int(a) for a in g), scounts[smp])
+            got = float(K["ped_llk"](sreads[smp], scounts[smp], haps, smp, g, dp))
+            if not close(got, want):
+                bad = "lookup %d: sample %d (ploidy %d) genotype %s served %.10g, that sample's reads give %.10g" % (k, smp, ploidies[smp], g.tolist(), got, want)
+                break
+        if bad:
+            col.violation("pedigree-likelihood-differs", "pedigree.log_likelihood_alleles_cached, one cache over samples of ploidy %s: %s" % (ploidies, bad), replay=case)
+
+
 def run_shard(tier, seed, spec, col):
+    if spec.get("kind") == "stream":
+        return run_stream(tier, seed, spec, col)
     K = kernels()
     for i in range(spec["cases"]):
         rng = gen.rng_for(seed, ID, spec["shard"], i)
@@ -276,6 +376,9 @@ def run_shard(tier, seed, spec, col):
 
 
 def replay(obj, col):
+    if obj["case"].get("kind") == "stream":
+        c = obj["case"]
+        return run_stream(obj.get("tier", "quick"), int(c["seed"]), {"kind": "stream", "shard": c["shard"], "streams": c["stream"] + 1}, col)
     K = kernels()
     c = unpack(obj["case"])
     check_case(c, col, K)
